@@ -107,7 +107,8 @@ Definition mmap_range (m : mode) (o : os) (flags addr size prot : N) : outcome (
   let* gref := grant_ref (os_page o) addr in
   let index := dev_index (os_page o) gref in
   let c32 := count mod 4294967296 in            (* the fam struct / ioctl argument carry a u32 count *)
-  if os_ioctl_ok o then                                                    (* :844 *)
+  (* :844; like the real gntdev, the device refuses a request for 0 grants (EINVAL) *)
+  if os_ioctl_ok o && (0 <? c32) then
     let '(u, l2) := mmap_unix o msize prot flags true index in             (* :845 *)
     match u with
     | Err e => Val (Err e, EvIoctlMap gref c32 index true :: l2)
